@@ -18,7 +18,7 @@ RULE = ("4 of 5 runs: battery bench (1-200 charge()/reset() calls on one battery
         "pilots 0, 1e-9 .. 10x max); 1 of 5: whole simulations with noisy batteries; non-trivial = sequence crosses the "
         "transition SoC or reaches >= 99.9% SoC; distinct = distinct (battery class, calc, noise?, tape, crossing pattern)")
 PROBES = ["crossed_transition", "reached_99_9", "noise_draw", "extreme_tape", "pilot_above_max", "tiny_pilot",
-          "exactly_full_start", "world_runs", "stepwise_tail_noise", "long_period_call", "pilot_just_off_a_finite_level", "second_life", "refused_reset"]
+          "exactly_full_start", "world_runs", "stepwise_tail_noise", "long_period_call", "pilot_just_off_a_finite_level", "second_life", "refused_reset", "stochastic_network_world"]
 FAULT_DIMENSION = "adversarial noise tape (the system's own randomness is the fault surface)"
 REAL_VS_STUB = "real: Battery, Linear2StageBattery, EV, EVSE, Simulator; ours: numpy.random.normal tape"
 ASSUMPTIONS = ["tolerances: 1e-9 relative + 1e-9 absolute on rate/power/charge comparisons",
@@ -33,9 +33,15 @@ def candidates(sc):
     return world_candidates(sc)
 
 
+P_STOCH = world.profile(net="stochastic", stations=(1, 4), periods=[1, 5, 5, 15, 60], noise=0.6, battery={"l2c": 3, "l2s": 2, "ideal": 1},
+                        evse_kinds={"cont": 3, "finite": 2}, tapes_noise=["prng", "extreme", "alt"], party={"scripted": 2, "uncontrolled": 3, "greedy": 1},
+                        stoch_early=0.4)
+
+
 def gen(rs, tier):
     if rs % 5 == 0:
-        return world.gen_world(rs, P_WORLD)
+        # (one world in four on the contributed StochasticNetwork: vehicles wait and are swapped into freed spaces)
+        return world.gen_world(rs, P_STOCH if (rs // 5) % 4 == 0 else P_WORLD)
     return gen_bench(rs, True, tier)
 
 
@@ -113,6 +119,8 @@ def check_world(sc):
     out = base_outcome(tr)
     completion(tr, out, "C03", required=False)
     out.probe("world_runs")
+    if sc["network"]["kind"] == "stochastic":
+        out.probe("stochastic_network_world")
     out.probe("second_life", tr.fault_counts.get("second_life", 0))
     hit = False
     for p in tr.periods:
